@@ -95,6 +95,17 @@ def regenerate(drv_exe, repo=REPO):
         if _write_if_changed(os.path.join(GEN, "Streams.lean"), stxt): info["changed"].append("Streams.lean")
     except Exception as e:   # clang missing, …: leave the committed file in place and say so
         info["problems"].append(f"Streams.lean not regenerated: {type(e).__name__}: {e}")
+    # generator plug-ins: extract/gen_<name>.py exposing `generate(repo) -> (file name under Gen/, text, fallbacks)`; a plug-in that
+    # cannot run leaves its committed file in place and is reported as a problem (never an alarm by itself)
+    import glob as _glob, importlib as _importlib
+    for f in sorted(_glob.glob(os.path.join(os.path.dirname(os.path.abspath(__file__)), "gen_*.py"))):
+        name = os.path.basename(f)[:-3]
+        try:
+            fname, text, gfb = _importlib.import_module("extract." + name).generate(repo)
+            info["fallback"] = list(info["fallback"]) + list(gfb)
+            if _write_if_changed(os.path.join(GEN, fname), text): info["changed"].append(fname)
+        except Exception as e:
+            info["problems"].append(f"{name}: {type(e).__name__}: {e}")
     consts, problems = scrape_constants(repo)
     info["problems"] += problems
     # a literal the scraper no longer recognises (moved, renamed, respelled beyond its patterns) keeps its pinned value with
